@@ -166,7 +166,7 @@ impl WalArchiver {
             })
             .collect();
 
-        archives.sort();
+        super::sort_by_log_id(&mut archives);
         Ok(archives)
     }
 
